@@ -11,7 +11,7 @@ Exit code 0 if every listed check reported a VIOLATION (mutant killed by all), 1
 """
 import json, os, subprocess, sys, tempfile, shutil, time
 HERE = os.path.dirname(os.path.dirname(os.path.abspath(__file__)))
-MT = "/tmp/verif-mut-target" if HERE == "/verif" else "/tmp/verif-mut-target-" + os.path.basename(HERE)
+MT = os.environ.get("VERIF_MT") or ("/tmp/verif-mut-target" if HERE == "/verif" else "/tmp/verif-mut-target-" + os.path.basename(HERE))  # VERIF_MT: own target dir per parallel stream
 
 def sh(cmd, **kw):
     return subprocess.run(cmd, shell=True, stdout=subprocess.PIPE, stderr=subprocess.STDOUT, text=True, **kw)
